@@ -3,6 +3,7 @@ package main
 import (
 	"flag"
 	"fmt"
+	"golang.org/x/tools/go/ssa"
 	"os"
 	"regexp"
 	"sort"
@@ -37,6 +38,7 @@ func cmdVerify(args []string) {
 	specDir := fs.String("spec", "/verif/spec", "spec dir")
 	work := fs.String("work", "/verif/.work", "work dir")
 	showOK := fs.Bool("v", false, "show discharged obligations")
+	showCalls := fs.Bool("calls", false, "print call ordinals of the matching functions")
 	nocache := fs.Bool("nocache", false, "ignore cache")
 	onlyContracted := fs.Bool("contracted", false, "only functions with a contract")
 	fs.Parse(args)
@@ -61,6 +63,9 @@ func cmdVerify(args []string) {
 		sp := w.specFor(fn)
 		if *onlyContracted && sp == nil {
 			continue
+		}
+		if *showCalls {
+			printCallOrdinals(w, fn)
 		}
 		if sp != nil && sp.Opaque {
 			continue
@@ -103,3 +108,26 @@ func cmdVerify(args []string) {
 	fmt.Printf("obligations=%d %v solve=%.1fs total=%.1fs\n", len(obs), n, time.Since(t1).Seconds(), time.Since(t0).Seconds())
 }
 
+func printCallOrdinals(w *World, fn *ssa.Function) {
+	var calls []*ssa.Call
+	for _, b := range fn.Blocks {
+		for _, i := range b.Instrs {
+			if c, ok := i.(*ssa.Call); ok {
+				if _, isB := c.Common().Value.(*ssa.Builtin); isB {
+					continue
+				}
+				calls = append(calls, c)
+			}
+		}
+	}
+	sort.SliceStable(calls, func(i, j int) bool { return calls[i].Pos() < calls[j].Pos() })
+	for i, c := range calls {
+		name := "?"
+		if f := c.Common().StaticCallee(); f != nil {
+			name = shortFuncName(f)
+		} else if c.Common().IsInvoke() {
+			name = "invoke " + c.Common().Method.Name()
+		}
+		fmt.Printf("  call %d: %s at %s\n", i+1, name, w.pos(c.Pos()))
+	}
+}
